@@ -22,6 +22,7 @@ func runC01(c *Ctx) {
 	c.Clause("C01.6 the run-loop timer folds in the loss-detection and ACK deadlines whenever the connection can still send probes/ACKs")
 	c.Clause("C01.7 lockset analysis: the frozen set of send-stream, receive-stream, framer and datagram-queue fields is only read or written with the owner's mutex held (outside the constructors)")
 	c.Clause("C01.8 a send stream that hands out a retransmission reports hasMoreData == true (or computes it from the buffered frame and the unsent data)")
+	c.Clause("C01.13 DATAGRAM frames queued by SendDatagram carry their length (DataLenPresent); C01.14 no frame of a packet is handled after an earlier frame of it failed")
 	c.NotCovered("prefix/ordering/completeness of the bytes delivered (reassembly is covered structurally by C03)")
 	c.NotCovered("that retransmission eventually succeeds; liveness under arbitrary loss")
 
@@ -37,6 +38,8 @@ func runC01(c *Ctx) {
 	c.rule("C01.11", func() { c01HandshakeDestConnIDPair(c, "C01.11") })
 	c.rule("C01.12", func() { c17IdleRestartCountsStreamFrames(c, "C01.12") })
 	c.rule("C01.8", func() { c01HasMoreAfterRetransmission(c) })
+	c.rule("C01.13", func() { c01DatagramFramesCarryTheirLength(c) })
+	c.rule("C01.14", func() { skipHandlingGuardsEveryHandler(c, "C01.14") })
 }
 
 func globalIs(v ssa.Value, obj types.Object) bool {
